@@ -451,12 +451,45 @@ type cliScript struct {
 	masks     []int64
 	ok        []string
 	user      string
+	// which command the request names: cmdSet=false is the fixed request of the older cases
+	// (Command=60007, no AuthCommand); otherwise each attribute is sent iff non-nil
+	cmdSet    bool
+	cmd, acmd *int64
+}
+
+// pcEntry: the policy a server serves one command under (ServerConfigForCommand).
+type pcEntry struct {
+	cmd              int64
+	auth, enc, integ string
+	methods          []string
 }
 
 type serverCfg struct {
 	auth, enc, integ string
 	methods, ciphers []string
 	tweak            func(*security.SecurityConfig)
+	perCmd           []pcEntry // per-command policies; the fields above are then the connection's default policy
+	// policy: a long-lived server policy OBJECT shared by several connections. Each connection works on
+	// a shallow copy (`connConfig := *s.SecurityConfig`, as server.ServeConn and SecurityManager do), so
+	// slices and maps inside are shared with the policy and with every other connection's copy.
+	policy *security.SecurityConfig
+}
+
+// policyOf: the server's OWN policy for a command -- the entry of the table, else the default.
+func (cfg serverCfg) policyOf(cmd int64) (auth, enc, integ string, methods []string) {
+	for _, e := range cfg.perCmd {
+		if e.cmd == cmd {
+			return e.auth, e.enc, e.integ, e.methods
+		}
+	}
+	return cfg.auth, cfg.enc, cfg.integ, cfg.methods
+}
+
+func optIntStr(p *int64) string {
+	if p == nil {
+		return "none"
+	}
+	return fmt.Sprint(*p)
 }
 
 type cliObs struct {
@@ -481,7 +514,16 @@ func runScriptedClient(ctx context.Context, conn net.Conn, sc cliScript, ob *cli
 	_ = ad.Set("Authentication", sc.auth)
 	_ = ad.Set("Encryption", sc.enc)
 	_ = ad.Set("Integrity", "OPTIONAL")
-	_ = ad.Set("Command", 60007)
+	if !sc.cmdSet {
+		_ = ad.Set("Command", 60007)
+	} else {
+		if sc.cmd != nil {
+			_ = ad.Set("Command", *sc.cmd)
+		}
+		if sc.acmd != nil {
+			_ = ad.Set("AuthCommand", *sc.acmd)
+		}
+	}
 	_ = ad.Set("RemoteVersion", security.DefaultRemoteVersion)
 	_ = ad.Set("NegotiatedSession", true)
 	_ = ad.Set("NewSession", "YES")
@@ -631,10 +673,43 @@ func runServerCase(c *Ctx, cfg serverCfg, sc cliScript) Case {
 		CryptoMethods: toCiphers(cfg.ciphers), Encryption: security.SecurityLevel(cfg.enc), Integrity: security.SecurityLevel(cfg.integ),
 	}
 	a := security.NewAuthenticator(conf, st)
+	if len(cfg.perCmd) > 0 {
+		// a server that serves different commands under different policies (as server.ServeConn wires it:
+		// a private copy of the command's policy per connection, nil = the default policy)
+		a.ServerConfigForCommand = func(command int) *security.SecurityConfig {
+			for _, e := range cfg.perCmd {
+				if e.cmd == int64(command) {
+					return &security.SecurityConfig{
+						AuthMethods: toMethods(e.methods), Authentication: security.SecurityLevel(e.auth),
+						CryptoMethods: toCiphers(cfg.ciphers), Encryption: security.SecurityLevel(e.enc), Integrity: security.SecurityLevel(e.integ),
+					}
+				}
+			}
+			return nil
+		}
+	}
 	neg, err := a.ServerHandshake(ctx)
 	op := fmt.Sprintf("server auth=%s enc=%s integ=%s methods=%s ciphers=%s key=1 cauth=%s cenc=%s cmethods=%s cciphers=%s ckey=%s masks=%s ok=%s user=%s",
 		strOrTilde(cfg.auth), strOrTilde(cfg.enc), strOrTilde(cfg.integ), joinOrDash(cfg.methods), joinOrDash(cfg.ciphers),
 		strOrTilde(sc.auth), strOrTilde(sc.enc), joinOrDash(sc.methods), joinOrDash(sc.ciphers), sc.key, intsOrDash(sc.masks), joinOrDash(sc.ok), strOrTilde(sc.user))
+	sentCmd := int64(60007) // what the request names as its command (absent: the zero value)
+	if sc.cmdSet {
+		sentCmd = 0
+		if sc.cmd != nil {
+			sentCmd = *sc.cmd
+		}
+	}
+	if len(cfg.perCmd) > 0 {
+		var es []string
+		for _, e := range cfg.perCmd {
+			es = append(es, fmt.Sprintf("%d:%s:%s:%s:%s", e.cmd, strOrTilde(e.auth), strOrTilde(e.enc), strOrTilde(e.integ), joinOrDash(e.methods)))
+		}
+		cs, as := optIntStr(sc.cmd), optIntStr(sc.acmd)
+		if !sc.cmdSet {
+			cs, as = "60007", "none"
+		}
+		op += fmt.Sprintf(" pc=%s cmd=%s acmd=%s", strings.Join(es, "/"), cs, as)
+	}
 	var real string
 	if err != nil {
 		cb.Close()
@@ -662,11 +737,36 @@ func runServerCase(c *Ctx, cfg serverCfg, sc cliScript) Case {
 		ckey := ob.key
 		mu.Unlock()
 		real = outcomeLine(neg, st, ranOK) + " user=" + strOrTilde(neg.User)
+		kp := "C03:server:"
+		if len(cfg.perCmd) > 0 {
+			kp = "C03:server:percmd:"
+		}
 		viol := func(key, what, exp, obs string) {
-			c.Violate(Violation{Property: "C03", Key: "C03:server:" + key, What: what, Ops: []string{op}, Expected: exp, Observed: obs})
+			c.Violate(Violation{Property: "C03", Key: kp + key, What: what, Ops: []string{op}, Expected: exp, Observed: obs})
+		}
+		// "its own policy": with per-command policies, the policy of the command this handshake is FOR --
+		// the command the server reports as negotiated (and a dispatching server goes on to run). From
+		// here on cfg is that policy.
+		forCmd := sentCmd
+		if neg.ClientConfig != nil {
+			forCmd = int64(neg.ClientConfig.Command)
+		}
+		dflt := cfg
+		cfg.auth, cfg.enc, cfg.integ, cfg.methods = dflt.policyOf(forCmd)
+		if len(dflt.perCmd) > 0 {
+			// the request named sentCmd as its command: that command's policy binds as well (the two
+			// coincide unless the server reports another command than the one it was asked for)
+			if a2, e2, i2, _ := dflt.policyOf(sentCmd); forCmd != sentCmd {
+				if a2 == "REQUIRED" && len(ranOK) == 0 {
+					viol("required-auth-not-run", fmt.Sprintf("request for command %d (policy: authentication REQUIRED) succeeded, reported as command %d, and no authentication exchange completed", sentCmd, forCmd), "a method ran", "none")
+				}
+				if (e2 == "REQUIRED" || i2 == "REQUIRED") && !st.IsEncrypted() {
+					viol("required-enc-plaintext", fmt.Sprintf("request for command %d (policy: encryption/integrity REQUIRED) succeeded, reported as command %d, on a plaintext stream", sentCmd, forCmd), "stream AES-GCM protected", "stream.IsEncrypted()=false")
+				}
+			}
 		}
 		if cfg.auth == "REQUIRED" && len(ranOK) == 0 {
-			viol("required-auth-not-run", "server with authentication REQUIRED returned success although no authentication exchange completed", "a method ran", "none")
+			viol("required-auth-not-run", fmt.Sprintf("server whose policy for the negotiated command (%d) marks authentication REQUIRED returned success although no authentication exchange completed", forCmd), "a method ran", "none")
 		}
 		if (cfg.enc == "REQUIRED" || cfg.integ == "REQUIRED") && !st.IsEncrypted() {
 			viol("required-enc-plaintext", "server with encryption/integrity REQUIRED returned success on a plaintext stream", "stream AES-GCM protected", "stream.IsEncrypted()=false")
@@ -725,7 +825,7 @@ func quietStdout() func() {
 
 func runHsAdv(c *Ctx) error {
 	defer quietStdout()()
-	c.Res.Rule = "both roles; every 4x4 local (authentication, encryption) policy plus integrity; method lists over {CLAIMTOBE, PASSWORD, NONE, BOGUS, TOKEN}; peers = the property's deviation catalogue (honest; Authentication/Encryption NO; ECDH key absent/undecodable; no common cipher; un-offered / multi-bit (also with an un-offered lowest bit) / zero / negative method bit; DENIED; clear post-auth ad on a keyed stream; sealed post-auth without agreement; missing or non-zero key message) crossed with each policy, plus random peers drawing every field independently; the scripted peer speaks raw CEDAR frames and records which exchanges completed; distinct by (config, script); non-trivial = peer deviates from honest in ≥1 field"
+	c.Res.Rule = "both roles; every 4x4 local (authentication, encryption) policy plus integrity; method lists over {CLAIMTOBE, PASSWORD, NONE, BOGUS, TOKEN}; peers = the property's deviation catalogue (honest; Authentication/Encryption NO; ECDH key absent/undecodable; no common cipher; un-offered / multi-bit (also with an un-offered lowest bit) / zero / negative method bit; DENIED; clear post-auth ad on a keyed stream; sealed post-auth without agreement; missing or non-zero key message) crossed with each policy, plus random peers drawing every field independently; server role also with PER-COMMAND policies (a strict command with authentication / encryption / integrity REQUIRED, a lax command, three default policies) against requests naming Command and AuthCommand independently (equal, different, DC_AUTHENTICATE / DC_SEC_QUERY with the real command in AuthCommand, a command without entry, either absent), success judged by the policy of the command the server reports as negotiated; the scripted peer speaks raw CEDAR frames and records which exchanges completed; distinct by (config, script); non-trivial = peer deviates from honest in ≥1 field"
 	var cases []Case
 	honestSrv := func(cfg clientCfg) srvScript {
 		return srvScript{auth: "YES", enc: "YES", methods: []string{"CLAIMTOBE"}, ciphers: []string{"AES"}, key: "good",
@@ -923,6 +1023,84 @@ func runHsAdv(c *Ctx) error {
 			}
 		}
 	}
+	// ---- server role with PER-COMMAND policies (ServerConfigForCommand): one server, a strict command
+	// (something REQUIRED), a lax command and a default policy; scripted clients name Command and
+	// AuthCommand independently (equal, different, the DC_AUTHENTICATE / DC_SEC_QUERY forms with the
+	// real command in AuthCommand, a command without an entry, either attribute absent). Success must
+	// meet the policy of the command the negotiation is FOR. ----
+	{
+		const strictCmd, laxCmd, otherCmd = 1, 5, 77
+		cbm := []string{"CLAIMTOBE"}
+		stricts := []pcEntry{
+			{strictCmd, "REQUIRED", "OPTIONAL", "OPTIONAL", cbm},
+			{strictCmd, "OPTIONAL", "REQUIRED", "OPTIONAL", cbm},
+			{strictCmd, "NEVER", "OPTIONAL", "REQUIRED", cbm},
+			{strictCmd, "REQUIRED", "REQUIRED", "OPTIONAL", []string{"PASSWORD", "CLAIMTOBE"}},
+		}
+		laxes := []pcEntry{
+			{laxCmd, "NEVER", "NEVER", "OPTIONAL", cbm},
+			{laxCmd, "OPTIONAL", "OPTIONAL", "OPTIONAL", cbm},
+		}
+		dflts := []serverCfg{
+			{auth: "OPTIONAL", enc: "OPTIONAL", integ: "OPTIONAL", methods: cbm, ciphers: []string{"AES"}},
+			{auth: "REQUIRED", enc: "REQUIRED", integ: "OPTIONAL", methods: cbm, ciphers: []string{"AES"}},
+			{auth: "NEVER", enc: "NEVER", integ: "NEVER", methods: cbm, ciphers: []string{"AES"}},
+		}
+		cmdVals := []*int64{ip(strictCmd), ip(laxCmd), ip(int64(commands.DC_AUTHENTICATE)), ip(int64(commands.DC_SEC_QUERY)), ip(otherCmd), nil}
+		acmdVals := []*int64{nil, ip(strictCmd), ip(laxCmd), ip(0), ip(int64(commands.DC_SEC_QUERY)), ip(otherCmd)}
+		// clients that would rather not authenticate / encrypt, and the honest one
+		pcDevs := []cdev{
+			{"honest", func(s *cliScript) {}},
+			{"auth-never", func(s *cliScript) { s.auth = "NEVER" }},
+			{"unwilling", func(s *cliScript) { s.auth = "OPTIONAL"; s.enc = "NEVER"; s.methods = []string{"NONE"}; s.masks = []int64{0}; s.key = "absent" }},
+			{"enc-never-key-absent", func(s *cliScript) { s.enc = "NEVER"; s.key = "absent" }},
+			{"mask-zero", func(s *cliScript) { s.masks = []int64{0} }},
+		}
+		for di, d0 := range dflts {
+			for si, se := range stricts {
+				for li, le := range laxes {
+					if !c.Thorough() && (di+si+li+int(c.Seed))%2 != 0 {
+						continue
+					}
+					cfg := d0
+					cfg.perCmd = []pcEntry{se, le}
+					if (si+li)%2 == 1 {
+						cfg.perCmd = []pcEntry{le, se}
+					}
+					for _, cv := range cmdVals {
+						for _, av := range acmdVals {
+							for _, d := range pcDevs {
+								sc := honestCli()
+								d.f(&sc)
+								sc.cmdSet, sc.cmd, sc.acmd = true, cv, av
+								cs := runServerCase(c, cfg, sc)
+								cases = append(cases, cs)
+								c.Distinct(cs.Ops[0], true)
+								c.Count("server-percmd:" + d.name)
+								switch {
+								case cv == nil:
+									c.Count("server-percmd:command-absent")
+								case av == nil:
+									c.Count("server-percmd:authcommand-absent")
+								case *cv == *av:
+									c.Count("server-percmd:command=authcommand")
+								case *cv == strictCmd && *av == laxCmd:
+									c.Count("server-percmd:strict-command-lax-authcommand")
+								case *cv == int64(commands.DC_AUTHENTICATE) || *cv == int64(commands.DC_SEC_QUERY):
+									c.Count("server-percmd:dc-form-with-authcommand")
+								default:
+									c.Count("server-percmd:command!=authcommand")
+								}
+								if strings.HasPrefix(cs.Real[0], "ok ") {
+									c.Count("server-percmd:success")
+								}
+							}
+						}
+					}
+				}
+			}
+		}
+	}
 	// two real endpoints, two methods that can run (first one failing on the wire, or not): the
 	// reported method on BOTH ends against the exchange that completed on the wire
 	{
@@ -988,6 +1166,16 @@ func runHsAdv(c *Ctx) error {
 				ok: pick(c, [][]string{{"CLAIMTOBE"}, nil}), user: pick(c, []string{"eve", "root"})}
 			for k := c.Rng.Intn(4); k > 0; k-- {
 				sc.masks = append(sc.masks, pick(c, []int64{bitClaimToBe, bitPassword, 0, bitClaimToBe | bitPassword, -1, 1 << 30}))
+			}
+			if c.Rng.Intn(3) == 0 {
+				// per-command policies, every field drawn independently; the request names any of the
+				// commands (or none) in either attribute
+				for _, k := range []int64{1, 5} {
+					cfg.perCmd = append(cfg.perCmd, pcEntry{k, pick(c, levels), pick(c, levels), pick(c, []string{"OPTIONAL", "REQUIRED", "NEVER"}), pick(c, srvShapes)})
+				}
+				vals := []*int64{ip(1), ip(5), ip(77), ip(int64(commands.DC_AUTHENTICATE)), ip(int64(commands.DC_SEC_QUERY)), ip(0), nil}
+				sc.cmdSet, sc.cmd, sc.acmd = true, pick(c, vals), pick(c, vals)
+				c.Count("server-random-percmd")
 			}
 			cs := runServerCase(c, cfg, sc)
 			cases = append(cases, cs)
@@ -1149,6 +1337,10 @@ func runHonestPairX(cc clientCfg, sc serverCfg, cmd int, clientSees string, boun
 		if sc.tweak != nil {
 			sc.tweak(conf)
 		}
+		if sc.policy != nil {
+			connConfig := *sc.policy
+			conf = &connConfig
+		}
 		a := security.NewAuthenticator(conf, sst)
 		r.sv.neg, r.sv.err = a.ServerHandshake(ctx)
 		r.sv.st = sst
@@ -1258,6 +1450,7 @@ type pairShape struct {
 	bound    time.Duration // 0 = hsHonestTimeout
 	nat      bool     // the client reaches the server through an address translator (FS then fails: the path names another endpoint)
 	ct, st   func(*security.SecurityConfig)
+	policy   *security.SecurityConfig // the server side is a connection of this long-lived policy object (sm/scs/levels describe it)
 }
 
 func (sh pairShape) integ() (string, string) {
@@ -1292,7 +1485,7 @@ type pairVerdict struct {
 func runPairCell(sh pairShape, ca, sa, ce, se string, cmd int) pairVerdict {
 	ci, si := sh.integ()
 	cc := clientCfg{auth: ca, enc: ce, integ: ci, methods: sh.cm, ciphers: sh.cc, tweak: sh.ct}
-	sc := serverCfg{auth: sa, enc: se, integ: si, methods: sh.sm, ciphers: sh.scs, tweak: sh.st}
+	sc := serverCfg{auth: sa, enc: se, integ: si, methods: sh.sm, ciphers: sh.scs, tweak: sh.st, policy: sh.policy}
 	sees := ""
 	if sh.nat {
 		sees = "192.0.2.77:9618"
@@ -1384,8 +1577,181 @@ func reportedIsReal(c *Ctx, prop, keyPrefix string, sh pairShape, ca, sa, ce, se
 	}
 }
 
+// c10Judge: the property oracle of C10 for ONE handshake of two real endpoints -- the decision table
+// written from the property text -- applied to the cell as if it stood alone (history plays no part in
+// the property: the same configurations give the same outcome whatever the endpoints did before).
+// history: the ops of the handshakes that preceded this one on the same server policy object (replay).
+func c10Judge(c *Ctx, sh pairShape, ca, sa, ce, se string, v pairVerdict, history []string) {
+	cl, sv, denied, msgOK, op, real := v.run.cl, v.run.sv, v.run.denied, v.run.msgOK, v.op, v.real
+	ops := append(append([]string{}, history...), op)
+	// ---- property oracle C10: the decision table written from the property text ----
+	common := "" // first method in the server's order that both list and that can actually run
+	for _, m := range sh.sm {
+		if contains(sh.cm, m) && contains(sh.ok, m) && m != "PASSWORD" && m != "NONE" {
+			common = m
+			break
+		}
+	}
+	listed := "" // first implemented method both sides LIST (whether or not it can complete between them)
+	for _, m := range sh.sm {
+		if contains(sh.cm, m) && m != "PASSWORD" && m != "NONE" {
+			listed = m
+			break
+		}
+	}
+	// the only failure is discovered while the exchanges run: a commonly listed method exists, none completes
+	runtimeOnly := listed != "" && common == ""
+	cipher := false
+	for _, x := range sh.scs {
+		if contains(sh.cc, x) {
+			cipher = true
+		}
+	}
+	req := func(a, b string) bool { return a == "REQUIRED" || b == "REQUIRED" }
+	nev := func(a, b string) bool { return a == "NEVER" || b == "NEVER" }
+	pref := func(a, b string) bool { return a == "PREFERRED" || b == "PREFERRED" }
+	wantAuth := req(ca, sa) || (!nev(ca, sa) && pref(ca, sa) && common != "")
+	encOn := req(ce, se) || (!nev(ce, se) && pref(ce, se) && cipher)
+	fail := (req(ca, sa) && nev(ca, sa)) || (req(ce, se) && nev(ce, se)) || (req(ca, sa) && common == "") || (req(ce, se) && !cipher)
+	ci, sig := sh.integ()
+	// integrity REQUIRED is not a row of the property's table: with no common cipher such a
+	// handshake cannot succeed; the table is then silent (compared with the model only)
+	integStuck := (ci == "REQUIRED" || sig == "REQUIRED") && !cipher
+	viol := func(key, what, exp, obs string) {
+		if len(history) > 0 {
+			what += fmt.Sprintf(" [handshake %d on one server policy object; the earlier ones are the first ops]", len(history)+1)
+		}
+		c.Violate(Violation{Property: "C10", Key: "C10:" + key, What: what, Ops: ops, Expected: exp, Observed: obs})
+	}
+	if fail {
+		if cl.err == nil || sv.err == nil {
+			viol("should-fail:"+sh.name, "handshake succeeded although one side requires what the other forbids / a required feature has no common method", "failure with explicit denial", real)
+		} else if !denied && !(runtimeOnly && !(req(ca, sa) && nev(ca, sa)) && !(req(ce, se) && (nev(ce, se) || !cipher))) {
+			// (when every commonly listed method fails while it RUNS, it is the client that gives up --
+			// it sends the final 0 and holds the per-method errors -- so it is not left with a bare close)
+			viol("bare-close:"+sh.name, "handshake failed without an explicit denial reaching the client (the server's last message on the wire is not an ad carrying a denial return code)", "DENIED response on the wire", "none")
+		}
+	} else if integStuck {
+		if cl.err == nil && sv.err == nil {
+			viol("integ-required-off:"+sh.name, "integrity REQUIRED, no common cipher, yet the handshake succeeded", "failure", real)
+		}
+	} else {
+		if (cl.err != nil || sv.err != nil) && runtimeOnly && pref(ca, sa) {
+			// nobody requires authentication, somebody prefers it, the commonly listed methods all fail on
+			// the wire: no mutually usable method exists, so by the table the handshake goes on unauthenticated
+			viol("preferred-auth-fails-late:"+sh.name, "authentication is only PREFERRED, every commonly listed method failed while it ran (no mutually usable method), and the handshake failed instead of continuing unauthenticated", fmt.Sprintf("success (auth=false, enc>=%v)", encOn), fmt.Sprintf("client failed=%v / server failed=%v", cl.err != nil, sv.err != nil))
+		} else if cl.err != nil || sv.err != nil {
+			viol("should-succeed:"+sh.name, "handshake failed although the policy table says it succeeds", fmt.Sprintf("success (auth=%v, enc>=%v)", wantAuth, encOn), fmt.Sprintf("client failed=%v / server failed=%v", cl.err != nil, sv.err != nil))
+		} else {
+			if cl.neg.Authentication != sv.neg.Authentication || cl.neg.Encryption != sv.neg.Encryption {
+				viol("disagree-flags:"+sh.name, "endpoints report different authentication/encryption outcomes", "equal", real)
+			}
+			if sv.neg.Authentication && cl.neg.Authentication && cl.neg.NegotiatedAuth != sv.neg.NegotiatedAuth {
+				viol("disagree-method:"+sh.name, "endpoints report different authentication methods", string(sv.neg.NegotiatedAuth), string(cl.neg.NegotiatedAuth))
+			}
+			if sv.neg.Authentication && cl.neg.Authentication && cl.neg.User != sv.neg.User {
+				viol("disagree-user:"+sh.name, "endpoints report different authenticated identities", "equal", "different")
+			}
+			if sv.neg.Authentication != wantAuth {
+				viol("auth-table:"+sh.name, "authentication ran/did not run contrary to the policy table", fmt.Sprint(wantAuth), fmt.Sprint(sv.neg.Authentication))
+			}
+			if v.run.wire.parsed && (len(v.run.wire.ranOK) > 0) != wantAuth {
+				viol("auth-table-wire:"+sh.name, "an authentication exchange completed / did not complete on the wire contrary to the policy table", fmt.Sprint(wantAuth), joinDash(v.run.wire.ranOK))
+			}
+			if (req(ce, se) || ci == "REQUIRED" || sig == "REQUIRED") && !(cl.st.IsEncrypted() && sv.st.IsEncrypted()) {
+				viol("enc-required-off:"+sh.name, "encryption/integrity required by one side but the stream is not protected", "encrypted", real)
+			}
+			if cl.neg.SessionId != sv.neg.SessionId {
+				viol("sid:"+sh.name, "session identifiers differ", sv.neg.SessionId, cl.neg.SessionId)
+			}
+			if !bytes.Equal(cl.neg.GetSharedSecret(), sv.neg.GetSharedSecret()) {
+				viol("key:"+sh.name, "endpoints hold different keys", "same", "different")
+			}
+			if msgOK != "1" {
+				viol("no-traffic:"+sh.name, "endpoints could not exchange messages both ways right after the handshake", "messages both ways", "failed")
+			}
+		}
+	}
+	// reported outcome = what happened on the wire, on both ends (also a C10 matter: "both
+	// endpoints report the same authentication and encryption outcome")
+	reportedIsReal(c, "C10", "C10:"+sh.name+":", sh, ca, sa, ce, se, v)
+}
+
+
+// matrixSequences: 2-3 handshakes, one after the other, against ONE server policy object (every
+// connection a shallow copy of it, as a serving daemon makes them). The property's table knows no
+// history: each handshake is compared with the model and judged by the table as if it were alone.
+// Sequences mix a handshake whose FIRST common method fails on the wire (bad token, FS through an
+// address translator) with handshakes that need exactly that method, and with plain ones.
+func matrixSequences(c *Ctx, mat *hsMaterial) (cases []Case) {
+	aes := []string{"AES"}
+	type step struct {
+		name string
+		cm   []string
+		ok   []string // methods that can complete between this client and the server
+		nat  bool
+		ct   func(*security.SecurityConfig)
+	}
+	steps := map[string]step{
+		"badtoken+claim": {"badtoken+claim", []string{"TOKEN", "CLAIMTOBE"}, []string{"CLAIMTOBE"}, false, mat.cliToken(mat.badTokenFile)},
+		"token-only":     {"token-only", []string{"TOKEN"}, []string{"TOKEN", "CLAIMTOBE"}, false, mat.cliToken(mat.tokenFile)},
+		"token+claim":    {"token+claim", []string{"CLAIMTOBE", "TOKEN"}, []string{"TOKEN", "CLAIMTOBE"}, false, mat.cliToken(mat.tokenFile)},
+		"claim-only":     {"claim-only", []string{"CLAIMTOBE"}, []string{"TOKEN", "CLAIMTOBE"}, false, nil},
+		"fs-nat+claim":   {"fs-nat+claim", []string{"FS", "CLAIMTOBE"}, []string{"CLAIMTOBE"}, true, nil},
+		"fs-only":        {"fs-only", []string{"FS"}, []string{"FS", "CLAIMTOBE", "TOKEN"}, false, nil},
+		"fs+claim":       {"fs+claim", []string{"FS", "CLAIMTOBE"}, []string{"FS", "CLAIMTOBE", "TOKEN"}, false, nil},
+	}
+	type family struct {
+		sm   []string
+		seqs [][]string
+	}
+	fams := []family{
+		{[]string{"TOKEN", "CLAIMTOBE"}, [][]string{{"badtoken+claim", "token-only"}, {"badtoken+claim", "token+claim", "claim-only"}, {"token-only", "badtoken+claim", "token-only"}, {"badtoken+claim", "badtoken+claim", "token+claim"}}},
+		{[]string{"CLAIMTOBE", "TOKEN"}, [][]string{{"badtoken+claim", "token-only"}, {"claim-only", "token-only", "badtoken+claim"}}},
+		{[]string{"FS", "CLAIMTOBE"}, [][]string{{"fs-nat+claim", "fs-only"}, {"fs-nat+claim", "fs+claim", "claim-only"}, {"fs-only", "fs-nat+claim", "fs-only"}}},
+		{[]string{"FS", "TOKEN", "CLAIMTOBE"}, [][]string{{"fs-nat+claim", "badtoken+claim", "token-only"}, {"badtoken+claim", "fs-nat+claim", "fs-only"}}},
+	}
+	k := int(c.Seed)
+	for _, fam := range fams {
+		for _, sa := range levels {
+			for _, seq := range fam.seqs {
+				k++
+				se := levels[k%4]
+				if !c.Thorough() && sa == "NEVER" && k%2 == 0 {
+					continue
+				}
+				// the policy object lives as long as the sequence
+				policy := &security.SecurityConfig{AuthMethods: toMethods(fam.sm), Authentication: security.SecurityLevel(sa),
+					CryptoMethods: toCiphers(aes), Encryption: security.SecurityLevel(se), Integrity: security.SecurityOptional}
+				mat.srvToken()(policy)
+				var history []string
+				for i, sn := range seq {
+					st := steps[sn]
+					ca := []string{"REQUIRED", "PREFERRED", "OPTIONAL", "REQUIRED"}[(k+i)%4]
+					ce := levels[(k+2*i)%4]
+					sh := pairShape{name: "seq:" + st.name, cm: st.cm, sm: fam.sm, cc: aes, scs: aes, ok: st.ok, nat: st.nat, ct: st.ct, st: mat.srvToken(), policy: policy}
+					v := runPairCell(sh, ca, sa, ce, se, []int{60007, 0, security.NoCommand}[(k+i)%3])
+					cases = append(cases, Case{Label: fmt.Sprintf("sequence step %d/%d %s", i+1, len(seq), st.name), Ops: []string{v.op}, Real: []string{v.real}})
+					c.Distinct(strings.Join(append(append([]string{}, history...), v.op), " ; "), true)
+					c.Count("sequence-step:" + st.name)
+					if i > 0 {
+						c.Count("sequence:handshake-after-others-on-one-policy-object")
+					}
+					if len(v.run.wire.ranAny) > 1 {
+						c.Count("sequence:first-method-failed-on-the-wire")
+					}
+					c10Judge(c, sh, ca, sa, ce, se, v, history)
+					history = append(history, v.op)
+				}
+				c.Count("sequences")
+			}
+		}
+	}
+	return
+}
+
 func runMatrix(c *Ctx) error {
-	c.Res.Rule = "two real cedar endpoints over an in-memory duplex pipe with a wire tap: the full 4^4 matrix of (client auth, server auth, client enc, server enc) levels x method-list shapes (equal, disjoint, overlapping in both orders, empty on either side, containing the unimplemented PASSWORD, PASSWORD only, both SCITOKENS and IDTOKENS, and four shapes where TWO methods can run: the first common one failing on the wire (FS through an address translator, TOKEN with a token signed by another key) or succeeding) x cipher lists (common / none) x integrity levels (OPTIONAL; REQUIRED on either side with and without a common cipher; NEVER), the client's command rotating over a real command, command 0 and none (auth-only); after success a canary message is exchanged each way; which method completed is read from the wire; outcome compared with the Lean model honestRun and with the property's decision table; exhaustive over the matrix for each shape; non-trivial = always (each cell distinct)"
+	c.Res.Rule = "two real cedar endpoints over an in-memory duplex pipe with a wire tap: the full 4^4 matrix of (client auth, server auth, client enc, server enc) levels x method-list shapes (equal, disjoint, overlapping in both orders, empty on either side, containing the unimplemented PASSWORD, PASSWORD only, both SCITOKENS and IDTOKENS, and four shapes where TWO methods can run: the first common one failing on the wire (FS through an address translator, TOKEN with a token signed by another key) or succeeding) x cipher lists (common / none) x integrity levels (OPTIONAL; REQUIRED on either side with and without a common cipher; NEVER), the client's command rotating over a real command, command 0 and none (auth-only); plus SEQUENCES of 2-3 handshakes against ONE long-lived server policy object (each connection a shallow copy of it), mixing a handshake whose first common method fails on the wire with handshakes that need exactly that method, each compared and judged as if it were alone; after success a canary message is exchanged each way; which method completed is read from the wire; outcome compared with the Lean model honestRun and with the property's decision table; exhaustive over the matrix for each shape; non-trivial = always (each cell distinct)"
 	defer quietStdout()()
 	mat, cleanup, err := hsPrepare(c)
 	if err != nil {
@@ -1453,106 +1819,19 @@ func runMatrix(c *Ctx) error {
 						cmd := []int{60007, 0, security.NoCommand}[cellNo%3]
 						v := runPairCell(sh, ca, sa, ce, se, cmd)
 						c.Count(fmt.Sprintf("command:%d", cmd))
-						cl, sv, denied, msgOK, op, real := v.run.cl, v.run.sv, v.run.denied, v.run.msgOK, v.op, v.real
-						cases = append(cases, Case{Label: "honest " + sh.name, Ops: []string{op}, Real: []string{real}})
-						c.Distinct(op, true)
+						cases = append(cases, Case{Label: "honest " + sh.name, Ops: []string{v.op}, Real: []string{v.real}})
+						c.Distinct(v.op, true)
 						c.Count("shape:" + sh.name)
 						if len(v.run.wire.ranAny) > 1 {
 							c.Count("first-method-failed-on-the-wire")
 						}
-						// ---- property oracle C10: the decision table written from the property text ----
-						common := "" // first method in the server's order that both list and that can actually run
-						for _, m := range sh.sm {
-							if contains(sh.cm, m) && contains(sh.ok, m) && m != "PASSWORD" && m != "NONE" {
-								common = m
-								break
-							}
-						}
-						listed := "" // first implemented method both sides LIST (whether or not it can complete between them)
-						for _, m := range sh.sm {
-							if contains(sh.cm, m) && m != "PASSWORD" && m != "NONE" {
-								listed = m
-								break
-							}
-						}
-						// the only failure is discovered while the exchanges run: a commonly listed method exists, none completes
-						runtimeOnly := listed != "" && common == ""
-						cipher := false
-						for _, x := range sh.scs {
-							if contains(sh.cc, x) {
-								cipher = true
-							}
-						}
-						req := func(a, b string) bool { return a == "REQUIRED" || b == "REQUIRED" }
-						nev := func(a, b string) bool { return a == "NEVER" || b == "NEVER" }
-						pref := func(a, b string) bool { return a == "PREFERRED" || b == "PREFERRED" }
-						wantAuth := req(ca, sa) || (!nev(ca, sa) && pref(ca, sa) && common != "")
-						encOn := req(ce, se) || (!nev(ce, se) && pref(ce, se) && cipher)
-						fail := (req(ca, sa) && nev(ca, sa)) || (req(ce, se) && nev(ce, se)) || (req(ca, sa) && common == "") || (req(ce, se) && !cipher)
-						ci, sig := sh.integ()
-						// integrity REQUIRED is not a row of the property's table: with no common cipher such a
-						// handshake cannot succeed; the table is then silent (compared with the model only)
-						integStuck := (ci == "REQUIRED" || sig == "REQUIRED") && !cipher
-						viol := func(key, what, exp, obs string) {
-							c.Violate(Violation{Property: "C10", Key: "C10:" + key, What: what, Ops: []string{op}, Expected: exp, Observed: obs})
-						}
-						if fail {
-							if cl.err == nil || sv.err == nil {
-								viol("should-fail:"+sh.name, "handshake succeeded although one side requires what the other forbids / a required feature has no common method", "failure with explicit denial", real)
-							} else if !denied && !(runtimeOnly && !(req(ca, sa) && nev(ca, sa)) && !(req(ce, se) && (nev(ce, se) || !cipher))) {
-								// (when every commonly listed method fails while it RUNS, it is the client that gives up --
-								// it sends the final 0 and holds the per-method errors -- so it is not left with a bare close)
-								viol("bare-close:"+sh.name, "handshake failed without an explicit denial reaching the client (the server's last message on the wire is not an ad carrying a denial return code)", "DENIED response on the wire", "none")
-							}
-						} else if integStuck {
-							if cl.err == nil && sv.err == nil {
-								viol("integ-required-off:"+sh.name, "integrity REQUIRED, no common cipher, yet the handshake succeeded", "failure", real)
-							}
-						} else {
-							if (cl.err != nil || sv.err != nil) && runtimeOnly && pref(ca, sa) {
-								// nobody requires authentication, somebody prefers it, the commonly listed methods all fail on
-								// the wire: no mutually usable method exists, so by the table the handshake goes on unauthenticated
-								viol("preferred-auth-fails-late:"+sh.name, "authentication is only PREFERRED, every commonly listed method failed while it ran (no mutually usable method), and the handshake failed instead of continuing unauthenticated", fmt.Sprintf("success (auth=false, enc>=%v)", encOn), fmt.Sprintf("client failed=%v / server failed=%v", cl.err != nil, sv.err != nil))
-							} else if cl.err != nil || sv.err != nil {
-								viol("should-succeed:"+sh.name, "handshake failed although the policy table says it succeeds", fmt.Sprintf("success (auth=%v, enc>=%v)", wantAuth, encOn), fmt.Sprintf("client failed=%v / server failed=%v", cl.err != nil, sv.err != nil))
-							} else {
-								if cl.neg.Authentication != sv.neg.Authentication || cl.neg.Encryption != sv.neg.Encryption {
-									viol("disagree-flags:"+sh.name, "endpoints report different authentication/encryption outcomes", "equal", real)
-								}
-								if sv.neg.Authentication && cl.neg.Authentication && cl.neg.NegotiatedAuth != sv.neg.NegotiatedAuth {
-									viol("disagree-method:"+sh.name, "endpoints report different authentication methods", string(sv.neg.NegotiatedAuth), string(cl.neg.NegotiatedAuth))
-								}
-								if sv.neg.Authentication && cl.neg.Authentication && cl.neg.User != sv.neg.User {
-									viol("disagree-user:"+sh.name, "endpoints report different authenticated identities", "equal", "different")
-								}
-								if sv.neg.Authentication != wantAuth {
-									viol("auth-table:"+sh.name, "authentication ran/did not run contrary to the policy table", fmt.Sprint(wantAuth), fmt.Sprint(sv.neg.Authentication))
-								}
-								if v.run.wire.parsed && (len(v.run.wire.ranOK) > 0) != wantAuth {
-									viol("auth-table-wire:"+sh.name, "an authentication exchange completed / did not complete on the wire contrary to the policy table", fmt.Sprint(wantAuth), joinDash(v.run.wire.ranOK))
-								}
-								if (req(ce, se) || ci == "REQUIRED" || sig == "REQUIRED") && !(cl.st.IsEncrypted() && sv.st.IsEncrypted()) {
-									viol("enc-required-off:"+sh.name, "encryption/integrity required by one side but the stream is not protected", "encrypted", real)
-								}
-								if cl.neg.SessionId != sv.neg.SessionId {
-									viol("sid:"+sh.name, "session identifiers differ", sv.neg.SessionId, cl.neg.SessionId)
-								}
-								if !bytes.Equal(cl.neg.GetSharedSecret(), sv.neg.GetSharedSecret()) {
-									viol("key:"+sh.name, "endpoints hold different keys", "same", "different")
-								}
-								if msgOK != "1" {
-									viol("no-traffic:"+sh.name, "endpoints could not exchange messages both ways right after the handshake", "messages both ways", "failed")
-								}
-							}
-						}
-						// reported outcome = what happened on the wire, on both ends (also a C10 matter: "both
-						// endpoints report the same authentication and encryption outcome")
-						reportedIsReal(c, "C10", "C10:"+sh.name+":", sh, ca, sa, ce, se, v)
+						c10Judge(c, sh, ca, sa, ce, se, v, nil)
 					}
 				}
 			}
 		}
 	}
+	cases = append(cases, matrixSequences(c, mat)...)
 	for i, cs := range cases {
 		if i%211 == 0 {
 			c.Sample(map[string]any{"op": cs.Ops[0], "real": cs.Real[0]})
